@@ -142,3 +142,20 @@ REG.klass("OrderManager", B + "backtesting.order_mgr.OrderManager",
 # ledger[s] = sum over orders of (balance_updates[s] + fees[s])  -  sum over loans of paid_interest[s]
 # It is updated (ghost_exit) in the sole writers of those maps: Order.add_fill and Loan.add_paid_interest.
 REG.klass("Ghost", None, ghost={"ledger": "MMap[Str,Real]", "init": "MMap[Str,Real]"})
+
+# --- backtesting: requests and the exchange facade --------------------------------------------------------------------
+REG.klass("ExchangeOrder", B + "backtesting.requests.ExchangeOrder", abstract=True,
+          fields={"_operation": "OrderOperation", "_pair": "Val:Pair", "_amount": "Real", "_auto_borrow": "Bool", "_auto_repay": "Bool"})
+REG.klass("MarketOrderReq", B + "backtesting.requests.MarketOrder", bases=["ExchangeOrder"])
+REG.klass("LimitOrderReq", B + "backtesting.requests.LimitOrder", bases=["ExchangeOrder"], fields={"_limit_price": "Real"})
+REG.klass("StopOrderReq", B + "backtesting.requests.StopOrder", bases=["ExchangeOrder"], fields={"_stop_price": "Real"})
+REG.klass("StopLimitOrderReq", B + "backtesting.requests.StopLimitOrder", bases=["ExchangeOrder"],
+          fields={"_stop_price": "Real", "_limit_price": "Real"})
+REG.klass("Balance", B + "backtesting.exchange.Balance",
+          fields={"available": "Real", "total": "Real", "hold": "Real", "borrowed": "Real"})
+REG.klass("CreatedOrder", B + "backtesting.exchange.CreatedOrder", fields={"id": "Id"})
+REG.klass("CanceledOrder", B + "backtesting.exchange.CanceledOrder", fields={"id": "Id"})
+REG.klass("Exchange", B + "backtesting.exchange.Exchange",
+          fields={"_dispatcher": "BacktestingDispatcher", "_balances": "AccountBalances",
+                  "_bar_event_source": "Dict[Val:Pair,FifoQueueEventSource]", "_config": "Config", "_prices": "Prices",
+                  "_loan_mgr": "LoanManager", "_order_mgr": "OrderManager"})
